@@ -72,12 +72,46 @@ def _arrival_msg(kind, i):
     return ss.marked_update(i + 1)[0]
 
 
+def _gapclass(cls):
+    # one root cause, one signature: only whether the gap is at the hold-time boundary matters
+    return 'gap~H' if cls in ('H-e', 'H', 'H+e') else 'gap<H'
+
+
 def run_case(case):
     conf, prop, phase, eps = case['conf'], case['prop'], case['phase'], case['eps']
     H = min(conf, prop)
     out = []
-    sim = Sim(hold_time=conf, keep_alive_time=case.get('conf_ka', 60))
+    sim = Sim(hold_time=conf, keep_alive_time=case.get('conf_ka', 60), idle_hold_time=5)
     r = sim.reactor
+    prev = case.get('prev')
+    if prev and phase != 'opensent':
+        # an earlier session of the same agent with another negotiated hold time, ended one way or another: the timers of
+        # the session under test follow ITS negotiation only
+        c0 = ss.establish(sim, hold=prev['prop'])
+        if c0 is not None and sim.state == 'ESTABLISHED':
+            how = prev['end']
+            if how == 'stop-start':
+                sim.manual_stop()
+                r.settle(fire_due=True)
+                sim.manual_start()
+            elif how == 'notif-ver':
+                r.peer_send(c0, rc.notification(2, 1))
+            elif how == 'marker':
+                r.peer_send(c0, b'\x00' * 19)
+            else:
+                r.peer_close(c0)
+            r.settle(fire_due=True)
+            for lc in ss.live_connectors(sim):
+                if lc is c0:
+                    r.peer_close(c0)
+                    r.settle(fire_due=True)
+        guard = 0
+        while not r.attempts() and r.next_time() is not None and guard < 50:
+            r.advance_to(r.next_time())
+            r.settle(fire_due=True)
+            guard += 1
+        if not r.attempts():
+            return [('prev-session:no-new-attempt:%s' % prev['end'], 'no connection attempt after the earlier session')]
     c = ss.connect(sim)
     r.settle(fire_due=True)
     if phase == 'opensent':
@@ -125,7 +159,7 @@ def run_case(case):
             r.advance_to(t_oc + d)
             r.settle(fire_due=True)
             if sim.state != 'OPENCONFIRM':
-                out.append(('early-end:%s:openconfirm-wait' % sim.state, 'state %s at t=%s while waiting %ss (< H=%s) for the first KEEPALIVE'
+                out.append(('early-end:openconfirm-wait', 'state %s at t=%s while waiting %ss (< H=%s) for the first KEEPALIVE'
                             % (sim.state, r.now, d, H)))
                 return out
             last = r.now
@@ -158,14 +192,14 @@ def run_case(case):
                 r.advance_to(T, include_equal=(order == 'timer'))
                 r.settle(fire_due=False)
                 if sim.state != 'ESTABLISHED':
-                    out.append(('early-end:%s:gap=%s' % (sim.state, cls),
+                    out.append(('early-end:before-arrival:%s' % _gapclass(cls),
                                 'session left ESTABLISHED at t=%s before arrival %d (last arrival %s, H=%s)' % (r.now, i, last, H)))
                     return out + audit(sim, c, H, t_oc, r.now, None)
                 operator_send(sim, kind, i)
                 delivered = r.peer_send(c, arrival_msg(kind, i))
                 r.settle(fire_due=True)
                 if not delivered or sim.state != 'ESTABLISHED':
-                    out.append(('arrival-not-accepted:gap=%s:%s' % (cls, order),
+                    out.append(('arrival-not-accepted:%s:%s' % (_gapclass(cls), order),
                                 'arrival %d at t=%s (last %s, H=%s, order %s) -> delivered=%s state=%s'
                                 % (i, T, last, H, order, delivered, sim.state)))
                     return out + audit(sim, c, H, t_oc, r.now, None)
@@ -175,7 +209,7 @@ def run_case(case):
             r.advance_to(dead_at - min(eps, H / 10.0))
             r.settle(fire_due=True)
             if sim.state != 'ESTABLISHED':
-                out.append(('early-end:%s:before-expiry' % sim.state, 'state %s at t=%s, expiry due %s' % (sim.state, r.now, dead_at)))
+                out.append(('early-end:before-expiry', 'state %s at t=%s, expiry due %s' % (sim.state, r.now, dead_at)))
                 return out + audit(sim, c, H, t_oc, r.now, None)
             r.advance_to(dead_at + 1)
             r.settle(fire_due=True)
@@ -235,6 +269,8 @@ case_strategy = st.fixed_dictionaries({
     'ka_delay': st.sampled_from(['0', '0', 'small', 'H/3', 'H/2', '2H/3', 'H-e']),
     'phase': st.sampled_from(['est', 'est', 'est', 'est', 'opensent', 'openconfirm']),
     'eps': st.sampled_from([0.001, 1.0]),
+    'prev': st.one_of(st.none(), st.none(), st.fixed_dictionaries({
+        'prop': st.sampled_from(HOLDS), 'end': st.sampled_from(['stop-start', 'notif-ver', 'marker', 'close'])})),
     'schedule': st.one_of(st.lists(arrival, max_size=8), st.lists(arrival, min_size=15, max_size=30))})
 
 
